@@ -6,6 +6,12 @@ COMMON_TRUST = [
 ]
 CODEC_RULE = "every message type x decoding parameter (Prio3 Count/Sum/Histogram/SumVec with 2-5 aggregators, Poplar1 with several bit lengths incl. 0, Prio2, ping-pong, primitives): honest encodings from real protocol runs, truncations, extensions, single-byte mutations, every alphabet value in first/last byte, all strings of length <= 2-3 over {00,01,7f,80,fe,ff}, header extremes (level 0xFFFF, counts 2^32-1, unknown tags), random strings; non-trivial = every case (each is a decode of a distinct byte string);"
 PROPS = {
+    "C19": {
+        "modules": ["PrioProofs.Props.C19"],
+        "rule": "input lengths {1,2,3,4,7,8,15,16,33,100} (thorough 15 lengths up to 1000): all-zero, all-one and random 0/1 vectors, each also with one entry replaced by 2, p-1, 3 or a random value; per report: reconstructed client proof vs the model's construct_proof, leader share, both verification messages at the derived point and at 0, 1, two interpolation nodes and a random point, the decision, the evaluation point from the HMAC/AES stream, streams with planted out-of-range / node / identity draws, alterations (+1, -1, random) of the first/last data element, f0, g0, h0, first/last packed element (thorough: 6 more positions), wrong-length shares; non-trivial = all;",
+        "trusted": COMMON_TRUST + ["HMAC-SHA256 and AES-128-CTR (hmac, sha2, aes, ctr crates): the key stream is a parameter of the model and is handed to it by the harness"],
+        "assumptions": ["soundness up to 2n/p is sampled by the oracle, not expressed as a probability", "NTT = DFT (C10, stated) is what completeness would rest on"],
+    },
     "C14": {
         "modules": ["PrioProofs.Props.C14"],
         "rule": "ParallelSum vs ParallelSumMultithreaded over Mul on Field64 and Field128: chunk counts {1,2,3,5,16,33} (thorough also 4,8,100) x wire lengths {1,2,4,16} (thorough up to 256), random polynomials, each with 8 (thorough 14) split trees incl. sequential, fully unbalanced, empty sides; thread pools of 1,2,3,8,16 (thorough 1-32) threads; malformed calls (short/long output, missing/extra/ragged/no polynomials, wire length beyond the NTT limit); whole Prio3 runs serial vs multithreaded for SumVec, Histogram, MultihotCountVec, L1BoundSum with (len, chunk) in {(1,1),(6,1),(6,2),(7,3),(5,16),(40,7),(64,8)} x (aggregators, proofs) in {(2,1),(3,2)} (thorough also (2,3)) x every pool; non-trivial = all;",
